@@ -218,7 +218,10 @@ def library_input(cfg, values):
         for a, e in enumerate(E):
             kth = seen.get(tuple(e), 0)
             seen[tuple(e)] = kth + 1
-            d[a] = d[a] * (1 + kth * 2.0**-51)
+            if cfg["noise"] is True:
+                d[a] = d[a] * (1 + kth * 2.0**-51)
+            else:  # absolute splitting below a user-supplied atol
+                d[a] = d[a] + kth * float(cfg["noise"])
         h0 = sparse.csr_array(np.diag(d)) if rep == "csr" else np.diag(d)
     Hd = {z: h0, **{tuple(o): conv(m) for o, m in values.items()}}
     kwargs = dict(subspace_indices=list(cfg.get("indices") or block_of(cfg["sizes"])), hermitian=cfg["hermitian"])
@@ -251,6 +254,8 @@ def library_input(cfg, values):
 
         Hd = {o: blocks(m) for o, m in Hd.items()}
         kwargs.pop("subspace_indices", None)
+    if cfg.get("atol") is not None:
+        kwargs["atol"] = float(cfg["atol"])
     if cfg.get("mask") is not None:
         md = {int(b): np.array(m, dtype=bool) for b, m in cfg["mask"].items()}
         if cfg.get("bare"):
